@@ -25,6 +25,11 @@ type OriginCase struct {
 	// Clean: the origin is a plain scheme://host[:port][/path] construction
 	// with the same host (liveness direction applies).
 	Clean bool `json:"clean"`
+	// Origin2: a second Origin line, sent after the first. A browser never
+	// sends two; of such a request the first line is "the Origin" (what
+	// Header.Get yields), so a foreign first line must be refused whatever
+	// follows it.
+	Origin2 string `json:"origin2,omitempty"`
 }
 
 // longHost returns a syntactically fine host name of about n bytes.
@@ -58,7 +63,7 @@ func genOriginCase(t *rapid.T) OriginCase {
 		return h + ":" + p
 	}
 	c.HasOrigin = true
-	kinds := []string{"absent", "same", "same-case", "edit", "add-label", "remove-label", "prefix-lookalike", "suffix-lookalike", "port-different", "port-missing-or-added", "userinfo-evil", "userinfo-benign", "unicode-fold", "percent", "null", "junk", "fragment-trick", "other-host", "backslash", "ipv6-variant", "scheme-less", "nonascii-tail"}
+	kinds := []string{"absent", "same", "same-case", "edit", "add-label", "remove-label", "prefix-lookalike", "suffix-lookalike", "port-different", "port-missing-or-added", "userinfo-evil", "userinfo-benign", "unicode-fold", "percent", "null", "junk", "fragment-trick", "other-host", "backslash", "ipv6-variant", "scheme-less", "nonascii-tail", "shift32", "two-origins"}
 	c.Kind = rapid.SampledFrom(kinds).Draw(t, "kind")
 	switch c.Kind {
 	case "absent":
@@ -167,6 +172,26 @@ func genOriginCase(t *rapid.T) OriginCase {
 		c.Origin = scheme + "://" + rapid.SampledFrom([]string{"[0:0:0:0:0:0:0:1]:8080", "[::0001]:8080", "[::1%25lo]:8080", "::1:8080", "[::1]", "[2001:DB8::1]", "[2001:db8:0::1]"}).Draw(t, "v6")
 	case "scheme-less":
 		c.Origin = "//" + c.Host + tail
+	case "shift32":
+		// one byte of host[:port] moved by 0x20 in either direction: for a letter
+		// that is its other case, for everything else another character
+		// ('[' <-> ';', ']' <-> '=', '-' <-> 'M', '.' <-> 'N', '1' <-> 'Q', ':' <-> 'Z')
+		b := []byte(c.Host)
+		pos := rapid.IntRange(0, len(b)-1).Draw(t, "shiftpos")
+		var cands []byte
+		for _, x := range []int{int(b[pos]) + 0x20, int(b[pos]) - 0x20} {
+			if x > 0x20 && x < 0x7f {
+				cands = append(cands, byte(x))
+			}
+		}
+		if len(cands) == 0 {
+			cands = []byte{'x'}
+		}
+		b[pos] = rapid.SampledFrom(cands).Draw(t, "shiftto")
+		c.Origin = scheme + "://" + string(b) + tail
+	case "two-origins":
+		c.Origin = scheme + "://" + rapid.SampledFrom([]string{"evil.com", "x" + c.Host, "%zz", c.Host + ".evil.com"}).Draw(t, "first_origin") + tail
+		c.Origin2 = rapid.SampledFrom([]string{"http://", "https://"}).Draw(t, "scheme2") + c.Host
 	}
 	return c
 }
@@ -212,8 +237,13 @@ func checkC13(c OriginCase, o *Obs) error {
 	}
 	// direct construction (what a handler sees for these header values)
 	h := http.Header{"Connection": {"Upgrade"}, "Upgrade": {"websocket"}, "Sec-Websocket-Version": {"13"}, "Sec-Websocket-Key": {sampleKey}}
+	origins := []string{c.Origin}
+	if c.Origin2 != "" {
+		origins = append(origins, c.Origin2)
+		o.Class("two_origin_lines_first_foreign")
+	}
 	if c.HasOrigin {
-		h["Origin"] = []string{c.Origin}
+		h["Origin"] = append([]string(nil), origins...)
 	}
 	// headers a client is free to send and that say nothing about the origin:
 	// forwarding headers naming the Origin's host (only a trusted reverse proxy
@@ -241,10 +271,12 @@ func checkC13(c OriginCase, o *Obs) error {
 	// through net/http's request parser
 	raw := "GET / HTTP/1.1\r\nHost: " + c.Host + "\r\nConnection: Upgrade\r\nUpgrade: websocket\r\nSec-WebSocket-Version: 13\r\nSec-WebSocket-Key: " + sampleKey + "\r\n"
 	if c.HasOrigin {
-		raw += "Origin: " + c.Origin + "\r\n"
+		for _, ol := range origins {
+			raw += "Origin: " + ol + "\r\n"
+		}
 	}
 	raw += fwd + "\r\n"
-	if pr, err := http.ReadRequest(bufio.NewReader(strings.NewReader(raw))); err == nil && pr.Host == c.Host && (!c.HasOrigin || (len(pr.Header["Origin"]) == 1 && pr.Header["Origin"][0] == c.Origin)) {
+	if pr, err := http.ReadRequest(bufio.NewReader(strings.NewReader(raw))); err == nil && pr.Host == c.Host && (!c.HasOrigin || sameStrings(pr.Header["Origin"], origins)) {
 		o.Class("via_net_http")
 		if err := judge("net/http", pr); err != nil {
 			return err
@@ -258,7 +290,7 @@ func checkC13(c OriginCase, o *Obs) error {
 		return err
 	}
 	rawAbs := "GET http://" + c.Host + "/chat?room=1 HTTP/1.1\r\n" + strings.TrimPrefix(raw, "GET / HTTP/1.1\r\n")
-	if pr, err := http.ReadRequest(bufio.NewReader(strings.NewReader(rawAbs))); err == nil && pr.Host == c.Host && pr.URL.Host == c.Host && (!c.HasOrigin || (len(pr.Header["Origin"]) == 1 && pr.Header["Origin"][0] == c.Origin)) {
+	if pr, err := http.ReadRequest(bufio.NewReader(strings.NewReader(rawAbs))); err == nil && pr.Host == c.Host && pr.URL.Host == c.Host && (!c.HasOrigin || sameStrings(pr.Header["Origin"], origins)) {
 		o.Class("via_net_http_absolute_form")
 		if err := judge("net/http, absolute-form target", pr); err != nil {
 			return err
@@ -278,6 +310,18 @@ func checkC13(c OriginCase, o *Obs) error {
 		}
 	}
 	return nil
+}
+
+func sameStrings(a, b []string) bool {
+	if len(a) != len(b) {
+		return false
+	}
+	for i := range a {
+		if a[i] != b[i] {
+			return false
+		}
+	}
+	return true
 }
 
 // editDistanceLE2 reports whether two strings differ by at most 2 code point edits.
